@@ -87,6 +87,8 @@ type workerOut struct {
 	Aborted    int             `json:"aborted"`
 	AbortNotes map[string]int  `json:"abort_notes"`
 	Violations []violationOut  `json:"violations"`
+	Regressed  []violationOut  `json:"regressed"`
+	Corpus     int             `json:"corpus"`
 	Samples    []sampleOut     `json:"samples"`
 	WallS      float64         `json:"wall_s"`
 }
@@ -154,6 +156,7 @@ func cmdWorker(args []string) int {
 	fs.Parse(args[1:])
 	t0 := time.Now()
 	wo := workerOut{Stats: sim.NewStats(), Shapes: map[string]bool{}, AbortNotes: map[string]int{}}
+	sim.MinimiseDeadline = t0.Add(time.Duration(*budget*3+120-50) * time.Second) // the check kills workers at budget*3+120 s
 	// independent streams per worker: the start state mixes seed and worker index through SplitMix64 itself
 	// (an offset by a multiple of the SplitMix increment would make the workers replay each other's seeds)
 	s0 := uint64(*seed)
@@ -162,6 +165,26 @@ func cmdWorker(args []string) int {
 	replayDir := filepath.Join(verifDir, "replays")
 	seenSig := map[string]bool{}
 	kfw := loadKnown()
+	if *idx == 0 {
+		// regression corpus: the minimised traces of every defect repaired so far (replays/fixed) are executed first;
+		// one that fails again with its recorded signature is a violation whose replay is the corpus file itself
+		files, _ := filepath.Glob(filepath.Join(verifDir, "replays", "fixed", prop+"-*.json"))
+		sort.Strings(files)
+		for _, f := range files {
+			rf, err := sim.ReadReplay(f)
+			if err != nil || rf.Property != prop {
+				continue
+			}
+			res := sim.Replay(rf.Property, rf.Config, rf.Intents, false)
+			wo.Corpus++
+			for _, v := range res.Viols {
+				if v.Signature() == rf.Signature {
+					wo.Regressed = append(wo.Regressed, violationOut{Signature: v.Signature(), Message: v.Message, Replay: f, Seed: rf.Seed})
+					break
+				}
+			}
+		}
+	}
 	for wo.Runs < *maxRuns && time.Since(t0).Seconds() < *budget {
 		rs := int64(sim.SplitMix64(&x) >> 1)
 		res := sim.RunSeed(prop, rs, *tier, false)
@@ -217,7 +240,7 @@ func cmdWorker(args []string) int {
 			}
 			min := res.Intents
 			if viol.Oracle != "deadlock" && viol.Oracle != "process" { // each deadlock replay leaks a hung app and costs the watchdog; a process divergence is judged against a second process
-				min = sim.Minimise(prop, res.Cfg, res.Intents, sig, 150)
+				min = sim.Minimise(prop, res.Cfg, res.Intents, sig, 500)
 			}
 			path, err := sim.WriteReplay(replayDir, res, viol, min)
 			if err != nil {
@@ -445,6 +468,8 @@ func cmdCheck(args []string) int {
 			merged.AbortNotes[k] += v
 		}
 		merged.Violations = append(merged.Violations, wo.Violations...)
+		merged.Regressed = append(merged.Regressed, wo.Regressed...)
+		merged.Corpus += wo.Corpus
 		if len(merged.Samples) < 2 {
 			merged.Samples = append(merged.Samples, wo.Samples...)
 		}
@@ -481,9 +506,17 @@ func cmdCheck(args []string) int {
 			fmt.Printf("KNOWN-FINDING: property=%s %s [%s] (not re-encountered in this run)\n", prop, k.Description, k.ID)
 		}
 	}
-	writeEvidence(prop, *tier, *seed, &merged, wall, len(unknown), len(knownHit))
+	writeEvidence(prop, *tier, *seed, &merged, wall, len(unknown)+len(merged.Regressed), len(knownHit))
 	os.RemoveAll(work)
 	keptReplay := map[string]string{}
+	for _, v := range merged.Regressed {
+		if _, dup := keptReplay[v.Signature]; dup {
+			continue
+		}
+		keptReplay[v.Signature] = v.Replay
+		fmt.Printf("violation: %s: %s (a defect repaired earlier is back: its committed trace fails again)\n", v.Signature, v.Message)
+		fmt.Printf("VIOLATION property=%s replay=%s\n", prop, v.Replay)
+	}
 	for _, v := range unknown {
 		if first, dup := keptReplay[v.Signature]; dup {
 			if v.Replay != first {
@@ -496,7 +529,7 @@ func cmdCheck(args []string) int {
 		fmt.Printf("VIOLATION property=%s replay=%s\n", prop, v.Replay)
 	}
 	fmt.Printf("%s %s: runs=%d nontrivial=%d distinct=%d blocks=%d txs=%d aborted=%d wall=%.1fs\n", prop, *tier, merged.Runs, merged.NonTrivial, len(merged.Shapes), merged.Stats.Blocks, merged.Stats.Txs, merged.Aborted, wall)
-	if len(unknown) > 0 {
+	if len(unknown) > 0 || len(merged.Regressed) > 0 {
 		return 1
 	}
 	if infra || merged.Runs == 0 {
@@ -532,6 +565,7 @@ func writeEvidence(prop, tier string, seed int64, m *workerOut, wall float64, vi
 			"runs_aborted":        m.Aborted,
 			"abort_notes":         m.AbortNotes,
 			"known_findings_seen": known,
+			"regression_corpus":   fmt.Sprintf("%d committed traces of repaired defects (replays/fixed) re-executed first; %d failed again", m.Corpus, len(m.Regressed)),
 			"first_seeds":         firstSeeds(m.Seeds, 20),
 			"real_components":     []string{"app.NewMhub2App (baseapp, ante, auth, bank, staking, slashing, distribution, mint, gov, params, x/mhub2, x/oracle) on rootmulti/IAVL/cachekv over MemDB"},
 			"stub_components":     []string{"Tendermint (single ordered block stream)", "Hub2.sol (Go model transcribed from solidity, own ABI encoder)", "Minter chain + multisig (Go model)", "Rust orchestrator/relayer (simulated actors)", "minter-connector main loop (simulated actor)", "price oracle daemon (simulated actor)"},
